@@ -80,7 +80,17 @@ impl CompressedReader {
 /// compressed.
 #[cfg(feature = "flate2")]
 fn finish_frame(reader: &mut BodyReader) -> io::Result<()> {
-    io::copy(reader, &mut io::sink()).map(|_| ())
+    // A server must not be able to keep a single read busy for ever with data that nobody asked for.
+    const MAX_TRAILING_LEN: u64 = 64 * 1024;
+
+    let skipped = io::copy(&mut reader.by_ref().take(MAX_TRAILING_LEN + 1), &mut io::sink())?;
+    if skipped > MAX_TRAILING_LEN {
+        return Err(io::Error::new(
+            io::ErrorKind::InvalidData,
+            "too much data after the end of the compressed stream",
+        ));
+    }
+    Ok(())
 }
 
 impl Read for CompressedReader {
